@@ -459,6 +459,16 @@ def write_fmt_call(n):
         fa = format_args_of(n)
         if fa:
             return n["args"][0], fa[0]
+    # the same text written without the macro: `w.write_str(x)`, `s.push_str(x)`, `s.push('c')`, `w.write_char('c')`
+    if isinstance(n, dict) and n.get("k") == "mcall" and len(n.get("args", [])) == 1:
+        a = strip_ref(n["args"][0])
+        if n["m"] in ("write_str", "push_str"):
+            if a.get("k") == "lit" and a.get("t") == "str":
+                return n["recv"], [("lit", a["v"])]
+            if n["m"] == "push_str" or a.get("k") in ("path", "field", "mcall", "call", "index", "unary", "ref"):
+                return n["recv"], [("hole", a, "")]
+        if n["m"] in ("write_char", "push") and a.get("k") == "lit" and a.get("t") == "char":
+            return n["recv"], [("lit", a["v"])]
     return None
 
 
@@ -638,4 +648,88 @@ def root_expr_name(e):
         e = strip_ref(e) if isinstance(e, dict) else e
     if isinstance(e, dict) and e.get("k") == "path" and len(e["segs"]) == 1:
         return e["s"]
+    return None
+
+
+# ----------------------------------------------------------------------------- reachability (helper extraction is not a change of behaviour)
+
+def callees_of(index, f, max_candidates=3):
+    """functions of the same crate that `f` calls, resolved by name (free fns, `Self::f`, `Type::f`, methods)."""
+    if not hasattr(index, "_byname"):
+        index._byname = {}
+        for g in index.fns:
+            index._byname.setdefault(g.name, []).append(g)
+    out = []
+    seen = set()
+    if not f.body:
+        return out
+    for n in walk(f.body):
+        nm = None
+        if n.get("k") == "call":
+            cp = call_path(n)
+            if cp:
+                nm = cp.split("::")[-1]
+        elif n.get("k") == "mcall":
+            nm = n["m"]
+        if not nm or nm == f.name:
+            continue
+        cands = [g for g in index._byname.get(nm, []) if g.body and g is not f]
+        if not cands or len(cands) > max_candidates:
+            continue
+        for g in cands:
+            if id(g) not in seen:
+                seen.add(id(g))
+                out.append(g)
+    return out
+
+
+def reach(index, f, depth=2):
+    """f plus the private helpers it (transitively, up to `depth`) calls in its own crate; each function once."""
+    out = [f]
+    seen = {id(f)}
+    frontier = [f]
+    for _ in range(depth):
+        nxt = []
+        for g in frontier:
+            for h in callees_of(index, g):
+                if id(h) not in seen:
+                    seen.add(id(h))
+                    out.append(h)
+                    nxt.append(h)
+        frontier = nxt
+    return out
+
+
+def walk_reach(index, f, depth=2, into_items=False):
+    """nodes of f and of the helpers it reaches (see reach)."""
+    for g in reach(index, f, depth):
+        root = g.node if into_items else g.body
+        for n in walk(root, into_items=into_items):
+            yield n
+
+
+def emptiness_test(cond):
+    """(subject text, polarity) if `cond` tests whether a collection is (non-)empty: polarity True = cond holds iff NON-empty.
+    Recognises len() comparisons with 0/1, is_empty(), negations and `let Some(..) = x.first()`-free forms only."""
+    c = cond
+    neg = False
+    while c.get("k") in ("unary", "paren"):
+        if c.get("k") == "unary":
+            if c.get("op") != "!":
+                return None
+            neg = not neg
+        c = c["e"]
+    if c.get("k") == "mcall" and c["m"] == "is_empty" and not c["args"]:
+        return expr_str(strip_ref(c["recv"])).replace(" ", ""), neg  # is_empty(): true iff empty -> polarity False, flipped by neg
+    if c.get("k") == "binary" and c.get("op") in (">", "!=", ">=", "==", "<", "<="):
+        l, r, op = c["l"], c["r"], c["op"]
+        if r.get("k") == "mcall" and r["m"] == "len":
+            l, r = r, l
+            op = {">": "<", "<": ">", ">=": "<=", "<=": ">="}.get(op, op)
+        if l.get("k") == "mcall" and l["m"] == "len" and not l["args"] and r.get("k") == "lit" and str(r.get("v")) in ("0", "1"):
+            v = str(r["v"])
+            pol = {(">", "0"): True, ("!=", "0"): True, (">=", "1"): True, ("==", "0"): False, ("<", "1"): False, ("<=", "0"): False}.get((op, v))
+            if pol is None:
+                return None
+            return expr_str(strip_ref(l["recv"])).replace(" ", ""), (pol != neg)
     return None
